@@ -544,3 +544,33 @@ Example chan_example_run :
   c_handled c = [(1, 0)] /\ c_dropped c = [(0, 0)] /\ c_stranded c = [] /\ c_phase c = RExited /\
   map sn_ok (c_senders c) = [[0]; [0]] /\ map sn_err (c_senders c) = [[1]; [1]].
 Proof. vm_compute. repeat split. Qed.
+
+(* ------------------------------------------------------------------ enabledness (any state) *)
+(* while the channel is open a send cannot fail ... *)
+Lemma chan_open_never_fails w c i : c_closed c = false -> cstep w c (KFail i) = c.
+Proof.
+  intros H. cbn [cstep]. destruct (nth_error (c_senders c) i) as [s|]; [|reflexivity].
+  destruct (sn_st s); [|reflexivity]. rewrite H. reflexivity.
+Qed.
+
+(* ... and while a permit is free it does not wait: the idle sender's acquire step is enabled *)
+Lemma chan_no_wait_while_free w c i s :
+  nth_error (c_senders c) i = Some s -> sn_st s = SIdle -> c_closed c = false -> 0 < c_free c ->
+  exists s', nth_error (c_senders (cstep w c (KAcquire i))) i = Some s' /\ sn_st s' = SHeld /\
+             c_free (cstep w c (KAcquire i)) + 1 = c_free c.
+Proof.
+  intros E Es Hc Hf. cbn [cstep]. rewrite E, Es, Hc. destruct (c_free c) as [|f] eqn:Ef; [lia|].
+  eexists. split; [|split].
+  - cbn [set_sender with_free c_senders]. eapply nth_error_replace_same. exact E.
+  - reflexivity.
+  - cbn [set_sender with_free c_free]. lia.
+Qed.
+
+(* a full, open channel makes the sender wait: neither acquire nor fail does anything *)
+Lemma chan_full_waits w c i :
+  c_closed c = false -> c_free c = 0 -> cstep w c (KAcquire i) = c /\ cstep w c (KFail i) = c.
+Proof.
+  intros Hc Hf. split; [|apply chan_open_never_fails; exact Hc].
+  cbn [cstep]. destruct (nth_error (c_senders c) i) as [s|]; [|reflexivity].
+  destruct (sn_st s); [|reflexivity]. rewrite Hc, Hf. reflexivity.
+Qed.
